@@ -139,7 +139,10 @@ class Observed:
                 occ[k] = o + 1
                 last_f = (k, o)
             elif p[0] == "F>":
-                self.fn_ret[last_f] = int(p[2])
+                # "F> k id" belongs to the latest invocation of k (another callable may have run in between,
+                # e.g. when a stop request is injected from inside k)
+                kk = int(p[1])
+                self.fn_ret[(kk, occ.get(kk, 1) - 1)] = int(p[2])
             elif p[0] == "T" and p[2] == "fn" and last_f is not None:
                 self.fn_throw[last_f] = int(p[1])
 
